@@ -24,7 +24,8 @@ def graph_cases(draw, tier):
     n = 4 ** graph["k"]
     queries = draw(st.lists(st.tuples(st.integers(0, n - 1), st.integers(0, 4)), min_size=1, max_size=4))
     return {"graph": graph, "queries": [list(q) for q in queries],
-            "matrix_dtype": draw(st.sampled_from(["int64", "int64", "uint8", "bool", "int32", "uint16", "float64"])),
+            "matrix_dtype": draw(st.sampled_from(["int64", "int64", "uint8", "bool", "int32", "uint16", "float64", "int8",
+                                                  "int16"])),
             "verbose": draw(st.integers(0, 3)) == 0, "layout": draw(st.sampled_from([None, None, "F", "strided"]))}
 
 
@@ -55,7 +56,7 @@ def evaluate_graph(case):
     nontrivial = bool(degrees & {1, 2, 3}) and 0 in degrees
     with_arcs = [v for v in range(n) if rows[v]]
 
-    latter_map = lib_call(dsw.accessor_to_latter_map, accessor=acc, verbose=verbose)
+    latter_map = lib_call(dsw.accessor_to_latter_map, _hold=False, accessor=acc, verbose=verbose)  # edited below
     if isinstance(latter_map, Raised):
         return bad("accessor_to_latter_map raised %r" % latter_map, labels)
     if sorted(int(key) for key in latter_map) != with_arcs:
@@ -103,6 +104,22 @@ def evaluate_graph(case):
             labels.append("leaf_duplicates")
     if not numpy.array_equal(numpy.asarray(acc), snapshot):
         return bad("a conversion modified the accessor", labels)
+    # the caller edits its latter map in place (as remove_nasty_arc does) and asks again
+    if latter_map and case["queries"]:
+        victim = sorted(latter_map)[case["queries"][0][0] % len(latter_map)]
+        removed = latter_map[victim].pop(0)
+        if not latter_map[victim]:
+            del latter_map[victim]
+        edited = list(rows)
+        edited[int(victim)] &= ~(1 << table[int(victim)].index(int(removed)))
+        for v, depth in case["queries"]:
+            want = leaf_multiset(edited, k, v, depth)
+            got = lib_call(dsw.obtain_leaf_vertices, vertex_index=v, depth=depth, latter_map=latter_map)
+            if isinstance(got, Raised) or Counter(int(x) for x in got) != want:
+                return bad("after removing the arc %d -> %d from the latter map in place, obtain_leaf_vertices(%d, "
+                           "depth=%d) = %r, end points of all walks are %r"
+                           % (victim, removed, v, depth, got, sorted(want.elements())[:20]), labels)
+        labels.append("map_edited_in_place")
     return Outcome(True, nontrivial, labels)
 
 
